@@ -41,6 +41,12 @@ FIXED = [
     ("pool", "w=2,g=16,l=2,steal=0,bal=40,slp=150,fin=dtor,prog=e2.x_s2"),
     ("pool", "w=2,g=16,l=1,steal=1,bal=30,slp=100,fin=dtor,prog=e1.e1.x_s1"),
     ("pool", "w=3,g=16,l=2,steal=1,bal=-1,slp=200,fin=dtor,prog=e2.g_s2.x"),
+    # local queues on both sides of a 128-slot block of the EnumerableThreadLocal (for_each calls back once per
+    # block): two parents in different blocks sleep with a child in their local queue while a third worker sweeps
+    # (i: all workers wait in the global pop first; hold: a parent waits until its child was started by somebody;
+    # w: until the parents have queued their children; then a wake-up sends the third worker sweeping)
+    ("pool", "w=3,g=16,l=1,steal=1,bal=-1,hold=1,idoff=127,fin=dtor,prog=i.e1.e1.w.u.g"),
+    ("pool", "w=4,g=16,l=1,steal=1,bal=-1,hold=1,idoff=126,fin=dtor,prog=i.e1.e1.e1.w.u.g_x"),
     ("pool", "w=1,g=16,l=1,steal=0,bal=-1,fin=dtor,prog=e3.g"),
     ("pool", "w=2,g=16,l=1,steal=0,bal=-1,fin=dtor,prog=e32_s.x"),
     ("pool", "w=2,g=0,l=1,steal=1,bal=-1,fin=dtor,prog=e.e.g_s.s"),
@@ -106,10 +112,17 @@ def gen_program(rng):
     if (has_kids or stop == "x") and pushes > cap:
         g = 16
     prog = "_".join(".".join(t) for t in threads)
-    return kind, "w=%d,g=%d,l=%d,steal=%d,bal=%d,slp=%d,fin=%s,prog=%s" % (w, g, l, rng.choice([0, 1, 1]), rng.choice([-1, -1, 40, 120, 400]), rng.choice([0, 0, 100, 250]), fin, prog)
+    return kind, "w=%d,g=%d,l=%d,steal=%d,bal=%d,slp=%d,fin=%s,prog=%s" % (w, g, l, rng.choice([0, 1, 1]), rng.choice([-1, -1, 40, 120, 400]), rng.choice([0, 0, 100, 250]), fin, prog) + (
+        ",idoff=%d,hold=%d" % (rng.choice([125, 126, 127]), rng.choice([0, 1])) if w >= 2 and rng.random() < 0.12 else "")
+
+
+def steps_for(params, base=MAX_STEPS):
+    m = re.search(r"idoff=(\d+)", params)
+    return base * 5 if m and int(m.group(1)) > 0 else base
 
 
 def run_driver(idx, scn, params, seeds, out, jobs, max_steps=MAX_STEPS):
+    max_steps = steps_for(params, max_steps)
     raw = "%s.%d.ndjson" % (out, idx)
     args = ["--scenario", scn, "--params", params, "--strategy", "mix", "--seeds", "%d:%d" % seeds, "--out", raw, "--max-steps", str(max_steps), "-j", str(jobs)]
     s = vlib.driver_status(vlib.driver("exec_driver", args))
@@ -212,7 +225,7 @@ def run(pid, tier, seed, replay=None):
     def model_check():
         for name, cfg in mc:
             mc_res[name] = vlib.tlc(os.path.join(SPEC, "MC_Exec.tla"), os.path.join(SPEC, "mc", cfg), cache=True, timeout=3000, heap="8g",
-                                    workers=max(2, vlib.NCPU // 2) if quick else None)
+                                    workers=4)
 
     th = None
     if not replay:
